@@ -1,6 +1,7 @@
 mod fakecli;
 mod frame;
 mod memtransport;
+mod plan;
 mod sshserver;
 mod tlsserver;
 mod util;
@@ -32,6 +33,7 @@ fn main() {
     }
     match op.as_str() {
         "frame" => frame::main(&opts),
+        "plan" => plan::main(&opts),
         _ => {
             eprintln!("unknown op {op}");
             std::process::exit(2);
